@@ -698,6 +698,7 @@ var (
 	zvgCAServer *zvgFakeCA
 	zvgCASigner *crypki.Signer
 	zvgCAErr    error
+	zvgCADir    string
 )
 
 // zvgRealSigner starts the fake CA once per process and returns the real crypki.Signer configured for it.
@@ -708,6 +709,7 @@ func zvgRealSigner() (*zvgFakeCA, *crypki.Signer, error) {
 			zvgCAErr = err
 			return
 		}
+		zvgCADir = dir
 		mk := func(tpl, parent *x509.Certificate, pk *ecdsa.PrivateKey, signer *ecdsa.PrivateKey) ([]byte, error) {
 			return x509.CreateCertificate(rand.Reader, tpl, parent, &pk.PublicKey, signer)
 		}
@@ -1772,6 +1774,11 @@ func TestVerifGensign(t *testing.T) {
 		t.Fatal(err)
 	}
 	defer os.RemoveAll(tmpRoot)
+	defer func() {
+		if zvgCADir != "" {
+			os.RemoveAll(zvgCADir)
+		}
+	}()
 	workers := plan.Workers
 	if workers <= 0 {
 		workers = 4
